@@ -133,31 +133,36 @@ theorem finally_action_exactly_once_after {α} (c : Cfg) (hc : c.oper = .finally
       · cases hasTerm (runFrom c (subscribePhase c sp) evs).log <;> cases hasDispose evs <;> simp
   · simp only [run, frozen_run c _ evs hf.frz, hf.cnt, hf.trm, hf.ord]; simp
 
-/-- **do_finally_exactly_once_after.** `do_finally`, when the finally action does not raise and `subscribe`
-returned a handle: for every history the action runs exactly once iff a terminal notification was delivered to the
-subscriber or the history contains a `dispose`, zero times otherwise, and no downstream callback runs after it. -/
-theorem do_finally_exactly_once_after {α} (c : Cfg) (hc : c.oper = .doFinally) (hnr : ∀ k, c.actRaises k = false)
+/-- **do_finally_exactly_once_after.** `do_finally` (with `fix: do_finally marks its action as invoked before calling
+it`), `subscribe` having returned a handle: for every history and whichever callbacks raise — the finally action
+itself included — the action is invoked at most once; exactly once iff a terminal notification was delivered to the
+subscriber or the history contains a `dispose`, zero times otherwise; and no downstream callback runs after it. -/
+theorem do_finally_exactly_once_after {α} (c : Cfg) (hc : c.oper = .doFinally) (hfx : c.doFinallyAsIs = false)
     (sp : SyncPhase α) (evs : List (Ev α)) (hh : (subscribePhase c sp : St α).d.handle = true) :
     actCount .fin (run c sp evs).log ≤ 1 ∧
     (actCount .fin (run c sp evs).log = 1 ↔ (hasTerm (run c sp evs).log = true ∨ hasDispose evs = true)) ∧
     noEmitAfterAct .fin (run c sp evs).log = true := by
-  rcases dofin_subscribePhase (α := α) c hc hnr sp with h | hf
-  · have h := dofin_run_inv c hc hnr evs _ _ h
-    obtain ⟨cnt, wi, sad, cur, dst, ust, trg, hdl, ret, ord⟩ := h
+  rcases dofin_subscribePhase (α := α) c hc hfx sp with h | hf
+  · have h := dofin_run_inv c hc hfx evs _ _ h
+    obtain ⟨cnt, wi, sad, cur, dst, ust, trg, ret, nh, ord⟩ := h
     simp only [run]
     refine ⟨?_, ?_, ord⟩
     · rw [cnt]; cases (runFrom c (subscribePhase c sp) evs).o.wasInvoked <;> simp
     · rw [cnt, wi, ← sad, trg, ret]
-      cases hasTerm (runFrom c (subscribePhase c sp) evs).log <;> cases hasDispose evs <;> simp
+      cases hx : (runFrom c (subscribePhase c sp) evs).d.handle
+      · have := nh hx
+        rw [trg, ret, hx] at this
+        simp_all
+      · cases hasTerm (runFrom c (subscribePhase c sp) evs).log <;> cases hasDispose evs <;> simp
   · rw [hf.frz.hdl] at hh; cases hh
 
-/-- **do_finally_at_most_once.** `do_finally` with a non-raising action, also when `subscribe` raised:
-at most one run, after every downstream callback. -/
-theorem do_finally_at_most_once {α} (c : Cfg) (hc : c.oper = .doFinally) (hnr : ∀ k, c.actRaises k = false)
+/-- **do_finally_at_most_once.** `do_finally` (fixed), also when `subscribe` itself raised and whichever callbacks
+raise: at most one invocation, after every downstream callback. -/
+theorem do_finally_at_most_once {α} (c : Cfg) (hc : c.oper = .doFinally) (hfx : c.doFinallyAsIs = false)
     (sp : SyncPhase α) (evs : List (Ev α)) :
     actCount .fin (run c sp evs).log ≤ 1 ∧ noEmitAfterAct .fin (run c sp evs).log = true := by
-  rcases dofin_subscribePhase (α := α) c hc hnr sp with h | hf
-  · have h := dofin_run_inv c hc hnr evs _ _ h
+  rcases dofin_subscribePhase (α := α) c hc hfx sp with h | hf
+  · have h := dofin_run_inv c hc hfx evs _ _ h
     simp only [run]
     refine ⟨?_, h.ord⟩
     rw [h.cnt]; cases (runFrom c (subscribePhase c sp) evs).o.wasInvoked <;> simp
@@ -166,25 +171,31 @@ theorem do_finally_at_most_once {α} (c : Cfg) (hc : c.oper = .doFinally) (hnr :
 /-- **finally_exactly_once_after** (the DESIGN.md statement, both operators). -/
 theorem finally_exactly_once_after {α} (c : Cfg) (sp : SyncPhase α) (evs : List (Ev α))
     (hc : c.oper = .finallyAction ∨
-      (c.oper = .doFinally ∧ (∀ k, c.actRaises k = false) ∧ (subscribePhase c sp : St α).d.handle = true)) :
+      (c.oper = .doFinally ∧ c.doFinallyAsIs = false ∧ (subscribePhase c sp : St α).d.handle = true)) :
     (actCount .fin (run c sp evs).log = 1 ↔ (hasTerm (run c sp evs).log = true ∨ hasDispose evs = true)) ∧
     (actCount .fin (run c sp evs).log = 0 ↔ ¬ (hasTerm (run c sp evs).log = true ∨ hasDispose evs = true)) ∧
     (∀ pre post e, (run c sp evs).log = pre ++ e :: post → e.isAct .fin = true → ∀ x ∈ post, x.isEmit = false) := by
   have key : actCount .fin (run c sp evs).log ≤ 1 ∧
       (actCount .fin (run c sp evs).log = 1 ↔ (hasTerm (run c sp evs).log = true ∨ hasDispose evs = true)) ∧
       noEmitAfterAct .fin (run c sp evs).log = true := by
-    rcases hc with hc | ⟨hc, hnr, hh⟩
+    rcases hc with hc | ⟨hc, hfx, hh⟩
     · exact finally_action_exactly_once_after c hc sp evs
-    · exact do_finally_exactly_once_after c hc hnr sp evs hh
+    · exact do_finally_exactly_once_after c hc hfx sp evs hh
   obtain ⟨h1, h2, h3⟩ := key
   refine ⟨h2, ?_, fun pre post e hl he => noEmitAfterAct_spec .fin _ pre post e h3 hl he⟩
   rw [← h2]; omega
 
-/-- Why `do_finally` needs "the action does not raise": `was_invoked[0] = True` is only set after the action
+/-! ### AsIs: the handler of the pinned tree before the fix -/
+
+/-- The defect repaired by `fix: do_finally marks its action as invoked before calling it`: in the handler as it
+was (`Cfg.doFinallyAsIs := true`, `WinFin.finGuardAsIs`) `was_invoked[0] = True` is only reached when the action
 returned, so an action that raises on its first invocation (here from the terminal handler, the source having
-completed inside `subscribe`) is invoked a second time by the `OnDispose` hook. -/
+completed inside `subscribe`) is invoked a second time by the `OnDispose` hook.  Same history, fixed handler: once. -/
 theorem do_finally_twice_when_action_raises :
-    actCount .fin (run (α := Nat) { oper := .doFinally, actRaises := fun k => k == 0 } { emits := [.completed] } []).log = 2 := by
+    actCount .fin (run (α := Nat) { oper := .doFinally, doFinallyAsIs := true, actRaises := fun k => k == 0 }
+      { emits := [.completed] } []).log = 2 ∧
+    actCount .fin (run (α := Nat) { oper := .doFinally, actRaises := fun k => k == 0 }
+      { emits := [.completed] } []).log = 1 := by
   decide
 
 /-- Why `do_finally` needs "`subscribe` returned": if the source fails inside `subscribe` and the subscriber's
